@@ -54,13 +54,22 @@ def gen_grid(rng, uniform_only=False, nmax=144):
     n = min(n, nmax)
     kinds = ["uniform0", "uniform_start", "uniform_mod", "uniform_pm180"]
     if not uniform_only:
-        kinds += ["nonuniform", "nonuniform_mod", "nonuniform"]
+        kinds += ["nonuniform", "nonuniform_mod", "nonuniform", "regular_interior"]
     kind = rng.choice(kinds)
     start = 0.0 if kind == "uniform0" else C.dyadic(rng, -180.0, 360.0, 10)
     if kind.startswith("uniform"):
         dl = 360.0 / n
         phi = [start + j * dl for j in range(n)]
         uniform = True
+    elif kind == "regular_interior":
+        # equal interior spacing, another width for the bin that closes the circle (a sector grid such as
+        # 20, 30, ..., 340, or a model grid with one direction left out): every gap stays below 180
+        step = rng.choice([5.0, 7.5, 10.0, 360.0 / (n + rng.choice([1, 2, 3]))])
+        if 360.0 - (n - 1) * step >= 179.0 or 360.0 - (n - 1) * step <= 0.5:
+            step = 360.0 / (n + 1)
+        phi = [start + j * step for j in range(n)]
+        dl = None
+        uniform = False
     else:
         w = [rng.uniform(0.4, 1.6) for _ in range(n)]
         tot = sum(w)
